@@ -115,6 +115,11 @@ func c15DeepCustom(r *rng) *GX {
 }
 
 func c15Prop(tr c15tree, mode int, prefix int, log *[]string, bad *string) func(t *rapid.T) {
+	p, _ := c15PropSub(tr, mode, prefix, log, bad)
+	return p
+}
+
+func c15PropSub(tr c15tree, mode int, prefix int, log *[]string, bad *string) (func(t *rapid.T), *rapid.Generator[[]any]) {
 	sub := rapid.SliceOfN(tr.gen, 1, 2)
 	return func(t *rapid.T) {
 		if tr.inlineExpr != "" {
@@ -148,7 +153,7 @@ func c15Prop(tr c15tree, mode int, prefix int, log *[]string, bad *string) func(
 				*bad = c
 			}
 		}
-	}
+	}, sub
 }
 
 // c15FuzzTarget: ONE function returned by MakeFuzz (one property over one shared generator tree) is called from
@@ -326,6 +331,7 @@ func c15Run(t *testing.T, sc Scenario, res *Result) {
 	bads := make([]string, G)
 	modes := make([]int, G)
 	tbs := make([]*recTB, G)
+	subs := make([]*rapid.Generator[[]any], G)
 	var wg sync.WaitGroup
 	start := make(chan struct{})
 	for g := 0; g < G; g++ {
@@ -334,11 +340,15 @@ func c15Run(t *testing.T, sc Scenario, res *Result) {
 		wg.Add(1)
 		go func(g int) {
 			defer wg.Done()
-			prop := c15Prop(tr, modes[g], g%5, &logs[g], &bads[g])
+			prop, sub := c15PropSub(tr, modes[g], g%5, &logs[g], &bads[g])
+			subs[g] = sub
 			<-start
 			if modes[g] == 1 {
 				_ = tr.gen.String()
 				_ = tr.gx.Gen.String()
+			}
+			if g%4 == 3 {
+				_ = sub.String() // a generator built on the shared one is described while others describe / draw from the shared one
 			}
 			rapid.Check(tbs[g], prop)
 		}(g)
@@ -389,6 +399,19 @@ func c15Run(t *testing.T, sc Scenario, res *Result) {
 		return lg, bad
 	}
 	fresh := c15Build(sc.Seed)
+	// a generator is an immutable specification: its description - and that of every generator built on it - is the
+	// same whoever asked for it first, and whenever
+	wantSub, wantGen, wantInner := rapid.SliceOfN(fresh.gen, 1, 2).String(), fresh.gen.String(), fresh.gx.Gen.String()
+	if got := tr.gen.String(); got != wantGen || tr.gx.Gen.String() != wantInner {
+		res.violate(sc, "c15/description", fmt.Sprintf("the shared generator describes itself as %q after concurrent use, a freshly built equal one as %q", clip(got, 200), clip(wantGen, 200)), map[string]any{"expr": tr.gx.Desc})
+	}
+	for g := 0; g < G; g++ {
+		if got := subs[g].String(); got != wantSub {
+			res.violate(sc, "c15/description", fmt.Sprintf("a generator built on the shared one by check %d describes itself as %q, built on a fresh equal tree as %q", g, clip(got, 200), clip(wantSub, 200)), map[string]any{"expr": tr.gx.Desc})
+			break
+		}
+	}
+	res.count("descriptions_compared", int64(G+2))
 	refs := map[int][2][]string{}
 	for _, mp := range []int{0, 2, 10, 12, 20, 22, 30, 32, 40, 42} {
 		m, pf := mp%10, mp/10
